@@ -804,6 +804,13 @@ def normalise(trees: Dict[str, ast.Module], inventory: Optional[Set[str]] = None
                     continue                              # its own unknown callees first
             if why is None:
                 n_in, n_left = _inline_everywhere(h, trees, imports)
+                if _reflectively_reachable(h, trees):
+                    # `getattr(self, f"check_{word}")` in its class can select it by name: the definition stays visible
+                    report.append(f"kept unknown function {h.key}: selectable through a getattr dispatch of its class "
+                                  f"({n_in} direct call site(s) inlined)")
+                    skip.add(h.key)
+                    progress = True
+                    continue
                 if n_left == 0 and n_in > 0:
                     _remove_def(h, trees)
                     report.append(f"inlined {h.key} into {n_in} call site(s); definition dropped")
@@ -825,6 +832,31 @@ def normalise(trees: Dict[str, ast.Module], inventory: Optional[Set[str]] = None
         _KNOWN_FUNCS.update(inv)
         report += erase_namedtuples(trees, load_class_inventory())
     return report
+
+
+def _getattr_prefixes(cls_node: ast.ClassDef) -> List[str]:
+    """Constant prefixes of the attribute names a class selects on itself by `getattr(self, <template>)`."""
+    out = []
+    for n in ast.walk(cls_node):
+        if isinstance(n, ast.Call) and isinstance(n.func, ast.Name) and n.func.id == "getattr" and len(n.args) >= 2 \
+                and isinstance(n.args[0], ast.Name) and n.args[0].id in ("self", "cls"):
+            t = n.args[1]
+            if isinstance(t, ast.JoinedStr) and t.values and isinstance(t.values[0], ast.Constant):
+                out.append(str(t.values[0].value))
+            elif isinstance(t, ast.BinOp) and isinstance(t.op, ast.Add) and isinstance(t.left, ast.Constant) and isinstance(t.left.value, str):
+                out.append(t.left.value)
+            elif not isinstance(t, ast.Constant):
+                out.append("")
+    return out
+
+
+def _reflectively_reachable(h: Helper, trees) -> bool:
+    if h.cls is None:
+        return False
+    for n in ast.walk(trees[h.rel]):
+        if isinstance(n, ast.ClassDef) and n.name == h.cls:
+            return any(h.node.name.startswith(p) for p in _getattr_prefixes(n))
+    return False
 
 
 def _is_contextmanager(h: Helper) -> bool:
